@@ -20,7 +20,7 @@ PROPS = {
     },
     "C15": {
         "crash_signature": "C15/process-abort",
-        "quick": {"shards": 8, "timeout_s": 900, "floors": {"distinct_nontrivial": 1500, "exact_grid_references": 2000, "order_checks": 1000, "boxes_fully_covered": 50, "boxes_overlapping_nothing": 200}},
+        "quick": {"shards": 8, "timeout_s": 900, "floors": {"distinct_nontrivial": 1500, "exact_grid_references": 2000, "order_checks": 1000, "boxes_fully_covered": 50, "boxes_overlapping_nothing": 200, "tracker_recorded_shares_checked": 1000}},
         "thorough": {"shards": 16, "timeout_s": 3000, "floors": {"distinct_nontrivial": 50000}},
     },
     "C17": {
@@ -86,7 +86,7 @@ PROPS = {
     },
     "C18": {
         "prebuild": ["pymodule"],
-        "quick": {"shards": 8, "timeout_s": 1200, "floors": {"api/BatchSort.new": 1, "api/BatchSort.predict": 1, "api/BatchVisualSort.new": 1, "api/BatchVisualSort.predict": 1, "api/BoundingBox.as_xyaah": 1, "api/BoundingBox.getters": 1, "api/BoundingBox.new": 1, "api/BoundingBox.new_with_confidence": 1, "api/BoundingBox.setters": 1, "api/Point2DKalmanFilter.calculate_cost": 1, "api/Point2DKalmanFilter.distance": 1, "api/Point2DKalmanFilter.initiate": 1, "api/Point2DKalmanFilter.new": 1, "api/Point2DKalmanFilter.predict": 1, "api/Point2DKalmanFilter.update": 1, "api/Point2DKalmanFilterState.x/y": 1, "api/Polygon.get_points": 1, "api/PositionalMetricType.iou": 1, "api/PositionalMetricType.maha": 1, "api/PredictionBatchResult.batch_size": 1, "api/PredictionBatchResult.get": 1, "api/PredictionBatchResult.ready": 1, "api/Sort.new": 1, "api/Sort.predict": 1, "api/Sort.predict_with_scene": 1, "api/SortPredictionBatchRequest.add": 1, "api/SortPredictionBatchRequest.new": 1, "api/SortTrack.getters": 1, "api/SortTrack.voting_type": 1, "api/SpatioTemporalConstraints.add_constraints": 1, "api/SpatioTemporalConstraints.new": 1, "api/SpatioTemporalConstraints.validate": 1, "api/Universal2DBox.area": 1, "api/Universal2DBox.as_ltwh": 1, "api/Universal2DBox.gen_vertices": 1, "api/Universal2DBox.get_radius": 1, "api/Universal2DBox.get_vertices": 1, "api/Universal2DBox.getters": 1, "api/Universal2DBox.ltwh": 1, "api/Universal2DBox.ltwh_with_confidence": 1, "api/Universal2DBox.new": 1, "api/Universal2DBox.new_with_confidence": 1, "api/Universal2DBox.rotate": 1, "api/Universal2DBox.setters": 1, "api/Universal2DBoxKalmanFilter.calculate_cost": 1, "api/Universal2DBoxKalmanFilter.distance": 1, "api/Universal2DBoxKalmanFilter.initiate": 1, "api/Universal2DBoxKalmanFilter.new": 1, "api/Universal2DBoxKalmanFilter.predict": 1, "api/Universal2DBoxKalmanFilter.update": 1, "api/Universal2DBoxKalmanFilterState.bbox": 1, "api/Universal2DBoxKalmanFilterState.universal_bbox": 1, "api/Vec2DKalmanFilter.calculate_cost": 1, "api/Vec2DKalmanFilter.distance": 1, "api/Vec2DKalmanFilter.initiate": 1, "api/Vec2DKalmanFilter.new": 1, "api/Vec2DKalmanFilter.predict": 1, "api/Vec2DKalmanFilter.update": 1, "api/VisualSort.new": 1, "api/VisualSort.predict": 1, "api/VisualSort.predict_with_scene": 1, "api/VisualSortMetricType.cosine": 1, "api/VisualSortMetricType.euclidean": 1, "api/VisualSortObservation.new": 1, "api/VisualSortObservationSet.add": 1, "api/VisualSortObservationSet.new": 1, "api/VisualSortOptions.__repr__": 1, "api/VisualSortOptions.kalman_position_weight": 1, "api/VisualSortOptions.kalman_velocity_weight": 1, "api/VisualSortOptions.kept_history_length": 1, "api/VisualSortOptions.max_idle_epochs": 1, "api/VisualSortOptions.new": 1, "api/VisualSortOptions.positional_metric": 1, "api/VisualSortOptions.positional_min_confidence": 1, "api/VisualSortOptions.spatio_temporal_constraints": 1, "api/VisualSortOptions.visual_max_observations": 1, "api/VisualSortOptions.visual_metric": 1, "api/VisualSortOptions.visual_min_votes": 1, "api/VisualSortOptions.visual_minimal_area": 1, "api/VisualSortOptions.visual_minimal_own_area_percentage_collect": 1, "api/VisualSortOptions.visual_minimal_own_area_percentage_use": 1, "api/VisualSortOptions.visual_minimal_quality_collect": 1, "api/VisualSortOptions.visual_minimal_quality_use": 1, "api/VisualSortOptions.visual_minimal_track_length": 1, "api/VisualSortPredictionBatchRequest.add": 1, "api/VisualSortPredictionBatchRequest.new": 1, "api/VisualSortPredictionBatchRequest.prediction": 1, "api/WastedSortTrack.getters": 1, "api/WastedVisualSortTrack.getters": 1, "api/bsort.clear_wasted": 1, "api/bsort.current_epoch": 1, "api/bsort.current_epoch_with_scene": 1, "api/bsort.idle_tracks": 1, "api/bsort.shard_stats": 1, "api/bsort.skip_epochs": 1, "api/bsort.skip_epochs_for_scene": 1, "api/bsort.wasted": 1, "api/bvsort.clear_wasted": 1, "api/bvsort.current_epoch": 1, "api/bvsort.current_epoch_with_scene": 1, "api/bvsort.idle_tracks": 1, "api/bvsort.shard_stats": 1, "api/bvsort.skip_epochs": 1, "api/bvsort.skip_epochs_for_scene": 1, "api/bvsort.wasted": 1, "api/intersection_area": 1, "api/nms": 1, "api/sort.clear_wasted": 1, "api/sort.current_epoch": 1, "api/sort.current_epoch_with_scene": 1, "api/sort.idle_tracks": 1, "api/sort.idle_tracks_with_scene": 1, "api/sort.shard_stats": 1, "api/sort.skip_epochs": 1, "api/sort.skip_epochs_for_scene": 1, "api/sort.wasted": 1, "api/sutherland_hodgman_clip": 1, "api/version": 1, "api/vsort.clear_wasted": 1, "api/vsort.current_epoch": 1, "api/vsort.current_epoch_with_scene": 1, "api/vsort.idle_tracks": 1, "api/vsort.idle_tracks_with_scene": 1, "api/vsort.shard_stats": 1, "api/vsort.skip_epochs": 1, "api/vsort.skip_epochs_for_scene": 1, "api/vsort.wasted": 1, "distinct_nontrivial": 100, "steps_compared": 5000, "records_with_visual_voting": 100}},
+        "quick": {"shards": 8, "timeout_s": 1200, "floors": {"api/BatchSort.new": 1, "api/BatchSort.predict": 1, "api/BatchVisualSort.new": 1, "api/BatchVisualSort.predict": 1, "api/BoundingBox.as_xyaah": 1, "api/BoundingBox.getters": 1, "api/BoundingBox.new": 1, "api/BoundingBox.new_with_confidence": 1, "api/BoundingBox.setters": 1, "api/Point2DKalmanFilter.calculate_cost": 1, "api/Point2DKalmanFilter.distance": 1, "api/Point2DKalmanFilter.initiate": 1, "api/Point2DKalmanFilter.new": 1, "api/Point2DKalmanFilter.predict": 1, "api/Point2DKalmanFilter.update": 1, "api/Point2DKalmanFilterState.x/y": 1, "api/Polygon.get_points": 1, "api/PositionalMetricType.iou": 1, "api/PositionalMetricType.maha": 1, "api/PredictionBatchResult.batch_size": 1, "api/PredictionBatchResult.get": 1, "api/PredictionBatchResult.ready": 1, "api/Sort.new": 1, "api/Sort.predict": 1, "api/Sort.predict_with_scene": 1, "api/SortPredictionBatchRequest.add": 1, "api/SortPredictionBatchRequest.new": 1, "api/SortTrack.getters": 1, "api/SortTrack.voting_type": 1, "api/SpatioTemporalConstraints.add_constraints": 1, "api/SpatioTemporalConstraints.new": 1, "api/SpatioTemporalConstraints.validate": 1, "api/Universal2DBox.area": 1, "api/Universal2DBox.as_ltwh": 1, "api/Universal2DBox.gen_vertices": 1, "api/Universal2DBox.get_radius": 1, "api/Universal2DBox.get_vertices": 1, "api/Universal2DBox.getters": 1, "api/Universal2DBox.ltwh": 1, "api/Universal2DBox.ltwh_with_confidence": 1, "api/Universal2DBox.new": 1, "api/Universal2DBox.new_with_confidence": 1, "api/Universal2DBox.rotate": 1, "api/Universal2DBox.setters": 1, "api/Universal2DBoxKalmanFilter.calculate_cost": 1, "api/Universal2DBoxKalmanFilter.distance": 1, "api/Universal2DBoxKalmanFilter.initiate": 1, "api/Universal2DBoxKalmanFilter.new": 1, "api/Universal2DBoxKalmanFilter.predict": 1, "api/Universal2DBoxKalmanFilter.update": 1, "api/Universal2DBoxKalmanFilterState.bbox": 1, "api/Universal2DBoxKalmanFilterState.universal_bbox": 1, "api/Vec2DKalmanFilter.calculate_cost": 1, "api/Vec2DKalmanFilter.distance": 1, "api/Vec2DKalmanFilter.initiate": 1, "api/Vec2DKalmanFilter.new": 1, "api/Vec2DKalmanFilter.predict": 1, "api/Vec2DKalmanFilter.update": 1, "api/VisualSort.new": 1, "api/VisualSort.predict": 1, "api/VisualSort.predict_with_scene": 1, "api/VisualSortMetricType.cosine": 1, "api/VisualSortMetricType.euclidean": 1, "api/VisualSortObservation.new": 1, "api/VisualSortObservationSet.add": 1, "api/VisualSortObservationSet.new": 1, "api/VisualSortOptions.__repr__": 1, "api/VisualSortOptions.kalman_position_weight": 1, "api/VisualSortOptions.kalman_velocity_weight": 1, "api/VisualSortOptions.kept_history_length": 1, "api/VisualSortOptions.max_idle_epochs": 1, "api/VisualSortOptions.new": 1, "api/VisualSortOptions.positional_metric": 1, "api/VisualSortOptions.positional_min_confidence": 1, "api/VisualSortOptions.spatio_temporal_constraints": 1, "api/VisualSortOptions.visual_max_observations": 1, "api/VisualSortOptions.visual_metric": 1, "api/VisualSortOptions.visual_min_votes": 1, "api/VisualSortOptions.visual_minimal_area": 1, "api/VisualSortOptions.visual_minimal_own_area_percentage_collect": 1, "api/VisualSortOptions.visual_minimal_own_area_percentage_use": 1, "api/VisualSortOptions.visual_minimal_quality_collect": 1, "api/VisualSortOptions.visual_minimal_quality_use": 1, "api/VisualSortOptions.visual_minimal_track_length": 1, "api/VisualSortPredictionBatchRequest.add": 1, "api/VisualSortPredictionBatchRequest.new": 1, "api/VisualSortPredictionBatchRequest.prediction": 1, "api/WastedSortTrack.getters": 1, "api/WastedVisualSortTrack.getters": 1, "api/bsort.clear_wasted": 1, "api/bsort.current_epoch": 1, "api/bsort.current_epoch_with_scene": 1, "api/bsort.idle_tracks": 1, "api/bsort.shard_stats": 1, "api/bsort.skip_epochs": 1, "api/bsort.skip_epochs_for_scene": 1, "api/bsort.wasted": 1, "api/bvsort.clear_wasted": 1, "api/bvsort.current_epoch": 1, "api/bvsort.current_epoch_with_scene": 1, "api/bvsort.idle_tracks": 1, "api/bvsort.shard_stats": 1, "api/bvsort.skip_epochs": 1, "api/bvsort.skip_epochs_for_scene": 1, "api/bvsort.wasted": 1, "api/intersection_area": 1, "api/nms": 1, "api/sort.clear_wasted": 1, "api/sort.current_epoch": 1, "api/sort.current_epoch_with_scene": 1, "api/sort.idle_tracks": 1, "api/sort.idle_tracks_with_scene": 1, "api/sort.shard_stats": 1, "api/sort.skip_epochs": 1, "api/sort.skip_epochs_for_scene": 1, "api/sort.wasted": 1, "api/sutherland_hodgman_clip": 1, "api/version": 1, "api/vsort.clear_wasted": 1, "api/vsort.current_epoch": 1, "api/vsort.current_epoch_with_scene": 1, "api/vsort.idle_tracks": 1, "api/vsort.idle_tracks_with_scene": 1, "api/vsort.shard_stats": 1, "api/vsort.skip_epochs": 1, "api/vsort.skip_epochs_for_scene": 1, "api/vsort.wasted": 1, "distinct_nontrivial": 100, "steps_compared": 5000, "records_with_visual_voting": 40}},
         "thorough": {"shards": 16, "timeout_s": 3400, "floors": {"distinct_nontrivial": 4000}, "engines": ["valgrind:c18"]},
     },
 }
